@@ -242,8 +242,27 @@ def check(tier, replay=None):
     elif not replay:
         # quick tier: only the six programs whose acceptance rustc alone decides (attributes on relation declarations)
         tie_b(r, rng, cases, real, listed, d, pick=rel_attr_cases())
+    n_failing = len({f["input"] for f in d.failing})
+    diversify(d)
     d.conclude(proof, "static checks of the macro front end")
+    r.cov["impl_vs_spec_failures"] = n_failing
     return r.finish(TRUSTED)
+
+
+def diversify(d):
+    """`Decision.conclude` writes replay files for the `max_replays` SHORTEST failing inputs; when the failures are of several kinds (an ill-formed
+    program accepted / a well-formed one rejected / a panic / a hang) the shortest input of every kind is among the ones written"""
+    by = collections.OrderedDict()
+    for f in sorted(d.failing, key=lambda f: len(f["input"])): by.setdefault((f.get("why") or "").split(":")[0], []).append(f)
+    if len(by) < 2: return
+    keep = [fs[0] for fs in by.values()][: d.max_replays]
+    rest = [f for fs in by.values() for f in fs[1:]]
+    rest.sort(key=lambda f: len(f["input"]))
+    seen = {f["input"] for f in keep}
+    for f in rest:
+        if len(keep) >= d.max_replays: break
+        if f["input"] not in seen: keep.append(f); seen.add(f["input"])
+    d.failing = keep
 
 
 # ------------------------------------------------------------------ tie B: real rustc
